@@ -3,6 +3,7 @@
   Plan.Sched is the reading of exactly these functions) and of `validateSchedule`.
 -/
 import GqlVerif.Plan.Sched
+import GqlVerif.Plan.Skip
 import GqlVerif.Generated.C08
 namespace GqlVerif.Ties.C08
 open GqlVerif.Generated.C08
@@ -29,6 +30,21 @@ theorem prepareLock_tie : prepareLock =
     ["l.dataBuffer.Lock", "defer:l.dataBuffer.Unlock", "l.shouldSkipErroredDependencyLocked", "l.selectItemsForPath"] := by decide +kernel
 theorem mergeLock_tie : mergeLock =
     ["l.dataBuffer.Lock", "defer:l.dataBuffer.Unlock", "l.mergeMultiEntityResult", "l.mergeResult", "l.callOnFinished"] := by decide +kernel
+
+/-- failed requests (Plan.Skip): the load phase runs outside the data lock, so it records a failed request through
+    the locking wrapper; `shouldSkipErroredDependencyLocked` (called from the locked prepare phase, see
+    `prepareLock_tie`) is `hit`'s first disjunct and records the skipped fetch itself -/
+theorem loadRecordsFailure_tie : loadRecordsFailure =
+    ["if prepared.skipLoad", "if l.responseCacheLookup()", "if prepared.trace!=nil", "l.executeSourceLoad",
+     "if prepared.res.err!=nil", "l.recordErroredFetchID"] := by decide +kernel
+theorem recordLock_tie : recordLock =
+    ["l.dataBuffer.Lock", "defer:l.dataBuffer.Unlock", "l.recordErroredFetchIDLocked"] := by decide +kernel
+theorem skipGuards_tie : skipGuards =
+    ["if item == nil || item.Fetch == nil || len(l.erroredFetchIDs) == 0", "if dependencies == nil",
+     "range _, dependencyID := dependencies.DependsOnFetchIDs", "if ok", "l.erroredFetchIDs[dependencyID]"] := by decide +kernel
+theorem recordGuards_tie : recordGuards =
+    ["if item == nil || item.Fetch == nil", "if dependencies == nil", "if l.erroredFetchIDs == nil",
+     "l.erroredFetchIDs[dependencies.FetchID]"] := by decide +kernel
 
 /-- `validateSchedule` (mirrored by `Sched.walk` / `Sched.validate`) -/
 theorem validateKinds_tie : validateKinds =
